@@ -131,7 +131,7 @@ def _write(case, tab, d, name):
     elif c == 'h5':
         W.write_hdf5_xsec(path, tab, name=name, unit=case['unit'], name_style=case['style'])
     elif c == 'exo':
-        W.write_exotransmit(path, tab)
+        W.write_exotransmit(path, tab, order=case.get('exo_order', 'wavelength'))
     elif c == 'kpickle':
         W.write_pickle_ktable(path, tab, name=name)
     elif c == 'kh5':
@@ -190,6 +190,10 @@ def xsec_case(case):
     want_name = opacfmt.molecule_name(_fmt_of(c), case['fname'])
     tag = '%s/%s' % (c, case['tag'])
     d = fx.fresh_dir('c14_e1')
+    if case.get('dotdir'):
+        # the search path itself contains a dot (a versioned data directory)
+        d = os.path.join(d, 'xsec.v2')
+        os.makedirs(d)
     path = _write(case, tab, d, want_name)
 
     # --- load -------------------------------------------------------------------------------
@@ -290,6 +294,9 @@ def cia_blocks(case):
             v = 10 ** rg.uniform(-0.5, 0.5, size=len(CIA_WN[bi])) * 1e-55
             if case['neg'] and bi == 0:
                 v[1] = -v[1]
+            if case['neg'] and bi == 1 and len(b1) and T == b1[0]:
+                # ... and one in the block with the gaps, at the temperature next to the interior gap only
+                v[-1] = -v[-1]
             if T in own[bi]:
                 rows[T] = v
         blocks.append({'wn': CIA_WN[bi], 'rows': rows})
@@ -859,6 +866,16 @@ def explore(ctx):
     for sh, nW, pat, (fn, tag), mode, via, wq in P(shapes, nWs, pats, FN_EXO, ['linear', 'exp'], ['cache', 'class'], wnq):
         cases.append({'container': 'exo', 'shape': list(sh), 'nW': nW, 'pattern': pat, 'fname': fn, 'tag': tag,
                       'mode': mode, 'via': via, 'wn': wq})
+        if pat == 'generic' and mode == 'linear':
+            # the wavelength blocks of the file listed in increasing wavenumber instead of increasing wavelength
+            cases.append({'container': 'exo', 'shape': list(sh), 'nW': nW, 'pattern': pat, 'fname': fn, 'tag': tag,
+                          'mode': mode, 'via': via, 'wn': wq, 'exo_order': 'wavenumber'})
+    # every container once more from a directory whose name holds a dot
+    for c_ in list(cases):
+        if c_['shape'] == [3, 3] and c_['nW'] == 4 and c_['pattern'] == 'generic' and c_['mode'] == 'linear' and \
+                c_.get('exo_order') is None and c_.get('unit', 'bar') == 'bar' and c_.get('style', 'str') == 'str' and \
+                c_.get('mem', True) is True:
+            cases.append(dict(c_, dotdir=True))
     # k-tables
     ngs = [2, 1, 3]
     for sh, ng, (fn, tag), mode, via in P(shapes, ngs, FN_KPICKLE, ['linear', 'exp'], ['cache', 'class']):
@@ -868,6 +885,10 @@ def explore(ctx):
                                                     ['cache', 'class']):
         cases.append({'container': 'kh5', 'shape': list(sh), 'nW': 4, 'ng': ng, 'pattern': 'generic', 'fname': fn,
                       'tag': tag, 'unit': unit, 'mem': mem, 'mode': mode, 'via': via, 'wn': 'none'})
+    for c_ in list(cases):
+        if c_['container'].startswith('k') and c_['shape'] == [3, 3] and c_['mode'] == 'linear' and c_.get('ng') == 2 and \
+                c_.get('unit', 'bar') == 'bar' and c_.get('mem', True) is True and not c_.get('dotdir'):
+            cases.append(dict(c_, dotdir=True))
     ctx.bounds.update(xsec_cases=len(cases), shapes=len(shapes), units=units,
                       lattice='all nodes + all cell centres + below/above on both axes')
     import time
@@ -886,7 +907,8 @@ def explore(ctx):
             continue
         if layout == 'same' and via == 'class':
             continue
-        if not thorough and ((fn != FN_CIA[0]) + (order != 'block') + (neg != 0) + (nb != 2) + (layout != 'separate') > 1):
+        if not thorough and ((fn != FN_CIA[0]) + (order != 'block') + (neg != 0) + (nb != 2) + (layout != 'separate') > 1) \
+                and not (neg == 1 and fn == FN_CIA[0] and order == 'block' and nb == 2 and layout == 'separate'):
             continue
         ccases.append(c)
     ctx.bounds.update(cia_cases=len(ccases))
